@@ -10,8 +10,17 @@ def run(tier):
     cases = isa.gen_vec_regs(corners_only=not full, rnd=rnd, frac=0.05)
     cases += isa.gen_bmi_regs(corners_only=not full, rnd=rnd, frac=0.05)
     cases += isa.gen_adx()
+    # the vector / VEX / BMI2 forms with a MEMORY operand (X and B extension bits, 0x67, VEX.X): a sample of the address shapes per
+    # class here (C02 owns the full shape product); through enc.run they also go through the second encoding under chunk fitting,
+    # counting and the other contexts
+    VEC_FORMS = ("sse_", "movd_", "movq_", "mmx_", "vex_", "avx_", "bmi_", "rorx_", "adx_", "vperm", "hint_")
+    memc = [c for c in isa.gen_mem(False, rnd, per_class=40 if not full else 600) if c["form"].startswith(VEC_FORMS) or c["fam"].startswith(("vec", "vex", "sse", "mmx", "avx"))]
+    st_mem = len(memc)
+    cases += memc
 
     def combos_for(c):
+        if "index" in c:  # a memory form: the SIB options have documented effects on some shapes (C02 / C11 own those)
+            return [enc.DEFAULT]
         if full:
             return [enc.DEFAULT, "000", "100"]
         return [enc.DEFAULT] + ([rnd.choice(enc.COMBOS)] if rnd.random() < 0.1 else [])
@@ -46,10 +55,11 @@ def run(tier):
         else:
             exec_ok += 1
             v.distinct(("exec", c["text"]))
+    st["vector_memory_form_cases"] = st_mem
     st["bmi_executions"] = len(ex)
     st["bmi_executions_ok"] = exec_ok
     v.cov["rule"] = ("every vector / VEX register-only form of the committed spec x register tuples: %s; VEX.L observed as xmm/ymm names, VEX.W as 32/64-bit "
-                     "register names, vvvv and inverted R/X/B as register numbers; distinct = (text, bytes) accepted and read back as expected by both decoders"
+                     "register names, vvvv and inverted R/X/B as register numbers; plus a sample of the same families with a memory operand over the address shapes (X / B bits, 0x67, VEX.X), all also under chunk fitting (second encoding), counting and other contexts; distinct = (text, bytes) accepted and read back as expected by both decoders"
                      % ("the complete register product" if full else "all two-operand tuples, all three-operand tuples with each operand in {0,7,8,15} plus a seeded 5%"))
     v.cov["exhaustive"] = full
     v.assumptions += ["LLVM-MC and libopcodes decode correctly where nasm's encoding of the same line validates them"]
